@@ -24,7 +24,9 @@ CFG = dict(
               "cubeQuads_normals_outward", "uvSphere_inscribed",
               "cube_volume", "cubeQuads_volume", "cylinder_volume", "cylinder_volume_bounds",
               "uvSphere_volume", "uvSphere_volume_bounds", "uvSphereUnwelded_volume",
-              "hemisphere_volume", "hemisphere_volume_bounds"],
+              "hemisphere_volume", "hemisphere_volume_bounds",
+              "uvSphere_positions_distinct", "uvSphereUnwelded_merge_exact", "cylinder_merge_exact",
+              "cubeQuads_merge_exact", "cubeWelded_positions_distinct"],
     streams=[dict(name="c18", n=dict(quick=30, thorough=60),
                   ulps={"c18.pos.sphere": _SIN, "c18.pos.sphereu": _SIN, "c18.pos.hemi": _SIN, "c18.nrm.sphere": _SINN,
                         "c18.pos.cyl": _ROT, "c18.nrm.cyl": _ROTN, "c18.pos.cubeq": _ROT, "c18.nrm.cubeq": _ROTN})],
@@ -37,7 +39,7 @@ CFG = dict(
     residue=[
         "the theorems are about the model (Model/Solids.lean); that the Go constructors emit exactly the model's index lists, vertex counts and panics is corresponded exactly for every (rows, cols), sides <= 24 (thorough; <= 10 quick) and sampled up to 512, not proved",
         "positions/normals: the implementation's float64 values agree with the model at Float up to the stated tolerances (observed on every run, not proved); the geometric theorems (outward, normals, volume) are over the reals about the model's expressions (IEEE rounding not modelled) and are re-checked numerically on the implementation's own output",
-        "merge maps (uvUnweldedSrc, cylinderPt, cubeQuadsPt) are validated, not proved: the implementation's positions of merged vertices coincide within 1e-9*size and those of unmerged ones do not (c18.merge.* on every run, <= 3000 vertices); closedness is additionally evaluated with the merge map computed from the implementation's positions alone (c18.holds.closed_by_position); no theorem says that distinct logical points have distinct real positions",
+        "merge maps: that they identify exactly the vertices whose REAL model positions coincide is a theorem (uvSphereUnwelded_merge_exact, cylinder_merge_exact, cubeQuads_merge_exact, *_positions_distinct); that the implementation's float positions realise the same classes (merged within 1e-9*size, unmerged not) is checked on every run (c18.merge.*, <= 3000 vertices), and closedness is additionally evaluated with the merge map computed from the implementation's positions alone (c18.holds.closed_by_position)",
         "outward = positive signed volume of every face against an interior point (star-shapedness); embeddedness is not stated separately",
         "hemisphere normals are not covered (the property lists sphere, box, cylinder; Hemisphere.UV's vertex-0 normal is NaN); the unwelded sphere supplies no normals",
         "cylinder with fewer than 3 sides and a cap panics in Circle.ToMesh (fix fc0d720): corresponded via Solids.cylinderAdmissible; degenerate pipes (no caps) are corresponded (indices, vertex count) but are not solids and carry no oracle",
@@ -46,6 +48,6 @@ CFG = dict(
                  "lengths (radius, height, box dimensions) in [0.01, 100]: the absolute tolerances and the 1e-9*size coincidence rule are calibrated for this range"],
     manifest=dict(
         text="Lean 4 theorems, for ALL admissible parameters (no size bound), about a model of modeling/primitives: the index buffers of the UV sphere (welded; unwelded modulo its copy map), hemisphere (cap fan + dome), capped cylinder (modulo seam/cap-rim merge map) are closed consistently oriented surfaces (directed edges pairwise distinct, closed under reversal, no loops; proved via explicit twin blocks and omega on the loop indices), the welded box by decide on the cubeVertIndices table regenerated from cube.go on every run and the six-quad box modulo its corner table; over the reals every face has positive signed volume against an interior point (sphere: det = r^3 sin(phi) sin(pi/rows) sin(2pi/cols)), supplied normals of sphere, box and cylinder have positive dot product with every incident face normal, and the enclosed volumes have closed forms (box w*h*d; cylinder (S/2) sin(2pi/S) r^2 H; sphere (C r^3/3) sin(2pi/C)(1+cos(pi/R)); hemisphere likewise) bounded above by the analytic volume with explicit O(1/R^2+1/C^2) deficit. Tied to the code on every run: index lists, vertex counts and panics compared exactly with the Go constructors for every (rows, cols), sides <= 24 and sampled up to 512 with and without cap/UV options; positions and normals at Float; the merge maps against the implementation's geometry; and the theorems' predicates (closed modulo merge, outward, volume, normals outward) evaluated on the implementation's own meshes.",
-        note="Trusted: Lean kernel; propext/Classical.choice/Quot.sound; facts extractor c18.cube; harness and position-class computation; sort-based closedness check above 1200 edges (cross-checked below); sin/cos tolerance. Not proved: model = code (corresponded), merge maps (validated numerically both ways), IEEE rounding, hemisphere normals (not in the property; vertex-0 normal is NaN).",
+        note="Trusted: Lean kernel; propext/Classical.choice/Quot.sound; facts extractor c18.cube; harness and position-class computation; sort-based closedness check above 1200 edges (cross-checked below); sin/cos tolerance. Not proved: model = code (corresponded), IEEE rounding (the merge maps are proved exact over the reals and validated numerically on the implementation's floats), hemisphere normals (not in the property; vertex-0 normal is NaN).",
         technique="Lean 4 proof for all parameters (List.range/flatMap combinatorics + omega; Mathlib trigonometry over the reals) + regenerated cube tables + exact index correspondence and oracle evaluation on the implementation's meshes"),
 )
